@@ -574,7 +574,24 @@ pub fn case_columnar(ctx: &mut Ctx, seed: u64, case: &Value) {
             Ok(d) => d,
             Err(e) => { oracle(ctx, "C08:column-open", format!("{what}: open failed: {e}"), case); continue; }
         };
-        check_dynamic(ctx, &mut rng, Some(h), &dc, &exp, &what, case);
+        let u64rows = check_dynamic(ctx, &mut rng, Some(h), &dc, &exp, &what, case);
+        // the model of the writer (operation log -> cardinality detection -> index builder) predicts the
+        // cardinality of the written column and, for u64-representable values, the rows read back
+        if num_docs <= 1500 {
+            let txt = match &u64rows {
+                Some(r) if !matches!(c.cat, Cat::Ip) => rows_text(r),
+                _ => rows_text(&c.rows.iter().map(|r| vec![0u64; r.len()]).collect::<Vec<_>>()),
+            };
+            let resp = ctx.model.ask(&format!("C08 writer {txt}"));
+            let real_card = match dc.get_cardinality() { Cardinality::Full => "full", Cardinality::Optional => "optional", Cardinality::Multivalued => "multivalued" };
+            let (mc, mrows) = resp.split_once(';').unwrap_or(("", ""));
+            if mc != real_card {
+                modelv(ctx, "C08:writer-cardinality", format!("{what}: written with cardinality {real_card}, the model of ColumnWriter detects {mc}"), case);
+            } else if mrows != txt {
+                modelv(ctx, "C08:writer-model-rows", format!("{what}: model writer pipeline does not read back its own rows"), case);
+            }
+            ctx.report.count("columnar:writer-model-compared");
+        }
     }
     ctx.report.count_n("columnar:columns-checked", expected_present);
     // sub-path listing (JSON-like dotted names)
